@@ -739,8 +739,8 @@ def strat_toy_mix(tier):
     c, form = draw(st.sampled_from(curves))
     n = c['n']
     idx = st.one_of(st.integers(0, n - 1), st.sampled_from([0, 0, 1, n - 1]))
-    pairs = draw(st.lists(st.tuples(idx, rel, idx).map(list), min_size=0,
-                          max_size=draw(st.sampled_from([1, 2, 4, 12, 40]))))
+    lo, hi = draw(st.sampled_from([(0, 1), (1, 3), (2, 8), (2, 8), (5, 20), (10, 40)]))
+    pairs = draw(st.lists(st.tuples(idx, rel, idx).map(list), min_size=lo, max_size=hi))
     ks = draw(st.lists(st.one_of(st.integers(-3 * n, 3 * n), st.sampled_from([0, n, -n, 2 * n]),
                                  st.integers(-2**20, 2**20)), max_size=12))
     inv = draw(st.lists(st.one_of(st.none(), st.integers(0, c['p'] - 1), st.just(0)), max_size=20))
@@ -1157,3 +1157,21 @@ ARMS = [
     Arm('constants', run_constants, enumerate=enum_constants, exhaustive=True, weight=6,
         doc='CURVE_FACTORY constants vs OpenSSL; primality; discriminant; G; order; Hasse'),
 ]
+
+# The machine is shared: budgets are generous so that a loaded host leaves nothing unexplored
+# (an exhausted budget is never a violation, but the exhaustive arms should really be exhaustive).
+for _a in ARMS:
+  _a.budget = (900, 5400)
+
+
+def zero_length_predicate(arm_name, desc, violation):
+  """Matches exactly the zero-length PointSequence/PointTable defect (see the report for C11).
+
+  Not registered: KNOWN stays empty until the coordinator either fixes /repo or lists the defect in
+  known_findings.json under an id (then: KNOWN = {'<id>': zero_length_predicate}).
+  """
+  return (arm_name == 'toy_sequence_empty' and desc.get('counts') == [0] and violation.clause in (
+      'raises:IndexError@ec_util.py:PointSequence', 'raises:ZeroDivisionError@ec_util.py:PointTable'))
+
+
+KNOWN = {}
